@@ -954,6 +954,10 @@ class Interp:
         ordinal = self.for_ordinal(s, frame)
         itv = self.expr(s.iter, frame)
         h = self.loop_hooks.get((frame.qualname, ordinal))
+        if h is None and hasattr(itv, "t") and hasattr(itv.t, "sexpr"):
+            # a loop contract may be attached to the sequence it walks instead of to a position in a function:
+            # it then follows the loop when a refactoring moves it into a helper or renumbers the loops
+            h = self.loop_hooks.get(("*over*", itv.t.sexpr() + ("/rev" if getattr(itv, "rev", False) else "")))
         if h is not None:
             r = h(self, s, frame, itv)
             if r is not NotImplemented:
